@@ -104,6 +104,8 @@ type Config struct {
 	// ProposerAny lets the stub pick any member of the validator set as proposer, including
 	// one the application can no longer resolve (known finding K1); otherwise it is avoided
 	ProposerAny bool `json:"proposer_any,omitempty"`
+	// FeederSwap lets the first two price feeders serve each other's token (feeder id != token id)
+	FeederSwap bool `json:"feeder_swap,omitempty"`
 	// HugeAmounts allows amounts of 2^128..2^255 (trigger-allowed runs for the known integer-overflow findings)
 	HugeAmounts bool `json:"huge_amounts,omitempty"`
 }
@@ -405,6 +407,9 @@ func (w *World) BuildGenesis(app *exocoreapp.ExocoreApp) (map[string]json.RawMes
 			TokenID: uint64(i + 1), NextRoundID: 2,
 			PriceList: []*oracletypes.PriceTimeRound{{Price: a.Price, Decimal: a.PriceDec, RoundID: 1}},
 		})
+	}
+	if cfg.FeederSwap && len(op.TokenFeeders) >= 3 {
+		op.TokenFeeders[1].TokenID, op.TokenFeeders[2].TokenID = op.TokenFeeders[2].TokenID, op.TokenFeeders[1].TokenID
 	}
 	og := oracletypes.NewGenesisState(op)
 	og.PricesList = prices
